@@ -27,6 +27,8 @@ Krylov vectors come FIRST, the augmentation vectors LAST (the comment in the sou
 * `lgmres_first_cycle_monotone`: the squared residual norms `‖Rf x_j‖²`, `j = 0..MM − |outer_v|`, are non-increasing.
 * `lgmres_first_cycle_monotone_model`: the cycle of the model with an empty buffer, whatever its pass count, breakdown in its
   last pass or not, does not increase `‖Rf x‖²`.
+* `lgmres_first_cycle_breakdown_exact`: a breakdown in the last pass of such a cycle and an injective preconditioned operator:
+  the cycle returns the exact solution (residual vector zero).
 
 ## the general cycle: minimisation over the AUGMENTED space, monotonicity, restarts
 
@@ -45,6 +47,8 @@ augmentation vectors, which may be any vectors of length `n`.
   last pass).
 * `lgmres_cycle_minimises`        the iterate after `j` passes without breakdown lies in `x₀ + Xl (span{z_0..z_{j-1}})` —
   Krylov basis AND augmentation vectors — and minimises the norm of the measured residual there; `‖Rf x_j‖² = s_j²`.
+* `lgmres_cycle_le_gmres`         the augmentation passes can only improve on GMRES: the iterate after `j` passes is at least as
+  good as the iterate of GMRES after any `m ≤ min(j, MM − |outer_v|)` passes from the same state.
 * `lgmres_cycle_antitone`         `‖Rf x_{j+1}‖² ≤ ‖Rf x_j‖²` within every cycle; `lgmres_cycle_monotone`: the cycle of the model
   (own pass count, breakdown in the last pass or not, singular triangular factor or not) does not increase `‖Rf x‖²`.
 * `lgmres_restart_monotone`       the call returns the member `louterPass … init k` of the sequence of restart states (`k` the
@@ -400,6 +404,24 @@ theorem lgmres_cycle_antitone (j : ℕ) (hroots : LRootsExact prm sqrt A P st (j
   · rw [if_neg hj]
     exact lcycle_antitone n A hA hn hm P Pl hP sqrt f prm st hst hod j (by omega) hroots hnb
 
+/-- **augmentation can only help**: in every cycle the iterate after `j` passes (no breakdown, exact roots) has a measured
+residual no larger than the iterate of GMRES after `m` passes from the same state, for every `1 ≤ m ≤ j`, `m ≤ MM − |outer_v|` —
+in particular no larger than that of a full cycle of GMRES(`MM − |outer_v|`) `⊇` GMRES(`prm.M`). -/
+theorem lgmres_cycle_le_gmres (m j : ℕ) (hm1 : 1 ≤ m) (hmj : m ≤ j) (hmk : m ≤ prm.MM - st.w.ov.size)
+    (hroots : LRootsExact prm sqrt A P st j) (hnb : ∀ i, i < j → lArnoldiNorm prm sqrt A P st i ≠ 0) :
+    stdIp (GMRES.Rf prm.pside P f A (lCycleIterate prm sqrt A P st j))
+        (GMRES.Rf prm.pside P f A (lCycleIterate prm sqrt A P st j))
+      ≤ stdIp (GMRES.Rf prm.pside P f A (cycleIterate prm.pside sqrt A P (lToG st) m))
+        (GMRES.Rf prm.pside P f A (cycleIterate prm.pside sqrt A P (lToG st) m)) := by
+  revert hroots hnb
+  induction j, hmj using Nat.le_induction with
+  | base => intro _ _; rw [lCycleIterate_eq prm sqrt A P st m hm1 hmk]
+  | succ j hmj ih =>
+    intro hroots hnb
+    exact le_trans
+      (lcycle_antitone n A hA hn hm P Pl hP sqrt f prm st hst hod j (by omega) hroots hnb)
+      (ih (hroots.mono (Nat.le_succ j)) (fun i hi => hnb i (by omega)))
+
 /-- **one restart cycle of the LGMRES model does not increase the residual** — whatever augmentation vectors it holds,
 whatever the pass count of its inner loop, with or without breakdown in its last pass, regular triangular factor or not
 (threshold not negative, exact roots on the numbers the cycle meets). -/
@@ -505,6 +527,15 @@ example : stdIp (GMRES.Rf prmL.pside Pg fg Ag (lCycleIterate prmL Amgcl.rsqrt Ag
     ≤ stdIp (GMRES.Rf prmL.pside Pg fg Ag (lCycleIterate prmL Amgcl.rsqrt Ag Pg stL 1))
       (GMRES.Rf prmL.pside Pg fg Ag (lCycleIterate prmL Amgcl.rsqrt Ag Pg stL 1)) :=
   lgmres_cycle_antitone 3 Ag hAg rfl rfl Pg LinearMap.id hPg Amgcl.rsqrt fg prmL stL hstL hodL 1 hrootsL hnbL
+
+/-- `lgmres_cycle_le_gmres` on `ExL` (`m = 1`, `j = 2`): after the augmentation pass `‖f − A x‖² = 256 ≤ 400`, the value GMRES(1)
+reaches from the same state -/
+example : stdIp (GMRES.Rf prmL.pside Pg fg Ag (lCycleIterate prmL Amgcl.rsqrt Ag Pg stL 2))
+      (GMRES.Rf prmL.pside Pg fg Ag (lCycleIterate prmL Amgcl.rsqrt Ag Pg stL 2))
+    ≤ stdIp (GMRES.Rf prmL.pside Pg fg Ag (cycleIterate prmL.pside Amgcl.rsqrt Ag Pg (lToG stL) 1))
+      (GMRES.Rf prmL.pside Pg fg Ag (cycleIterate prmL.pside Amgcl.rsqrt Ag Pg (lToG stL) 1)) :=
+  lgmres_cycle_le_gmres 3 Ag hAg rfl rfl Pg LinearMap.id hPg Amgcl.rsqrt fg prmL stL hstL hodL 1 2 (by decide) (by decide)
+    (by decide +kernel) hrootsL hnbL
 
 /-- the numbers of `ExL`, evaluated independently by the kernel: `‖f − A x_j‖² = 625, 400, 256`, `s₂ = 16`, and the iterate
 `x₂ = x₀ + (183/25) v₀ − (12/5)·(1,1,0)` really uses the augmentation vector -/
